@@ -38,7 +38,7 @@ ASSUMPTIONS = [
     "HTML blocks are not generated (flowmark deliberately does not block-parse HTML)",
     "documents come from the shared grammar; features named under excluded_by_known_finding are off",
 ]
-BUDGET = {"quick": 80, "thorough": 1500}
+BUDGET = {"quick": 150, "thorough": 1800}
 
 
 def _head(n) -> str:
@@ -211,7 +211,8 @@ CONTEXTS = {
     "footnote": ("[^a]: ", "    "),
 }
 HAZARDS = ["-", "+", "*", "1.", "2)", "10.", "#", "##", "######", ">", "---", "***", "___", "===", "=", "--", "```", "~~~", "````", "|", "|x|", "- - -", "* * *",
-           "[x]", "[ ]", "+1", "-x", "#hash", ">x", "1.x", "<!--", "{%", "1.", "\\", "&", "_", "~", "`", "!", ":", "[^a]:", "[a]:"]
+           "[x]", "[ ]", "+1", "-x", "#hash", ">x", "1.x", "<!--", "{%", "1.", "\\", "&", "_", "~", "`", "!", ":", "[^a]:", "[a]:",
+           "** *", "__ _", "_ _ _", "-- -", "**", "__", "* *", "- -", "== =", "\\\\", "x\\"]
 FILL = ["a", "bb", "ccc", "dddd", "eeeee", "ffffff"]
 
 
@@ -219,7 +220,7 @@ def _hazard(case: dict, note: Note) -> Failure | None:
     words, ctxname, width, semantic = case["words"], case["ctx"], case["width"], case["semantic"]
     ii, si = CONTEXTS[ctxname]
     haz = case["hazard"]
-    assert all(w in FILL or w == haz for w in words) and haz in HAZARDS and words[0] != haz, "domain: hazard case"
+    assert all(w in FILL or w == haz for w in words) and haz in HAZARDS, "domain: hazard case"
     x = ii + " ".join(words) + "\n"
     o = {"width": width, "semantic": semantic, "cleanups": False, "smartquotes": False, "ellipses": False, "list_spacing": "preserve"}
     cin = canon.canon_in(x)[1]
@@ -266,8 +267,8 @@ def _hazard_sweep(ctx: Ctx):
     quick = ctx.quick
     for haz in HAZARDS:
         for n in ((3, 5) if quick else (2, 3, 4, 5, 6, 8)):
-            for pos in range(1, n):
-                for fill_rot in range(3 if quick else 6):
+            for pos in range(0, n):  # position 0: kept only where the input still reads as one paragraph with these words
+                for fill_rot in range(2 if quick else 6):
                     words = [FILL[(i + fill_rot) % len(FILL)] for i in range(n)]
                     words[pos] = haz
                     total = len(" ".join(words))
